@@ -325,7 +325,7 @@ func guardsOnEdge(e ssa.Value, pred, to *ssa.BasicBlock) ival {
 		} else {
 			continue
 		}
-		if !ok || op == token.ILLEGAL {
+		if !ok || (op == token.ILLEGAL && cmp.Op != token.EQL && cmp.Op != token.NEQ) {
 			continue
 		}
 		for k := 0; k < 2; k++ {
@@ -350,6 +350,13 @@ func guardsOnEdge(e ssa.Value, pred, to *ssa.BasicBlock) ival {
 				res = tightenHi(res, cst)
 			case (op == token.GEQ && !truth) || (op == token.LSS && truth): // e < c
 				res = tightenHi(res, new(big.Int).Sub(cst, one))
+			case (cmp.Op == token.EQL && truth) || (cmp.Op == token.NEQ && !truth): // e == c
+				res = tightenLo(res, cst)
+				res = tightenHi(res, cst)
+			case (cmp.Op == token.NEQ && truth) || (cmp.Op == token.EQL && !truth): // e != c: for a length, != 0 means >= 1
+				if lc, isCall := e.(*ssa.Call); isCall && calleeFull(&lc.Call) == "builtin.len" && cst.Sign() == 0 {
+					res = tightenLo(res, one)
+				}
 			}
 		}
 	}
@@ -534,6 +541,7 @@ func (c *Ctx) c14Siblings() {
 			// LinearJitterBackoff multiplies by the attempt number without an overflow check: the delegation is reached only
 			// past a test of the attempt number against MaxInt64 divided by a bound
 			guarded := false
+			c14BoundaryNote = ""
 			allInstrs(f, func(in ssa.Instruction) {
 				cl, ok := in.(*ssa.Call)
 				if !ok || !strings.HasSuffix(calleeFull(&cl.Call), "go-retryablehttp.LinearJitterBackoff") {
@@ -558,8 +566,12 @@ func (c *Ctx) c14Siblings() {
 					}
 				}
 			})
+			note := ""
+			if !guarded && c14BoundaryNote != "" {
+				note = c14BoundaryNote + "; "
+			}
 			c.check(guarded, "O4", key+"/fallback:representable", c.pos(f.Pos()), "delegation reached only where (attempt+1)·bound fits a duration",
-				"the linear policy hands any attempt number to LinearJitterBackoff, which multiplies without an overflow check: for attempt numbers beyond MaxInt64/max the wait wraps around and is negative (Apply(1h, 1h, 2562047, nil))")
+				note+"the linear policy hands any attempt number to LinearJitterBackoff, which multiplies without an overflow check: for attempt numbers beyond MaxInt64/max the wait wraps around and is negative (Apply(1h, 1h, 2562047, nil))")
 		case "ExponentialBackoffPolicy":
 			// on the !ConsiderRetryAfter side: returns max or a value guarded by both tests
 			ok4 := true
@@ -1124,10 +1136,38 @@ func c14RepresentabilityTest(v ssa.Value, attempt ssa.Value, depth int) bool {
 	case *ssa.BinOp:
 		switch x.Op {
 		case token.LSS, token.LEQ, token.GTR, token.GEQ:
-			for _, pair := range [][2]ssa.Value{{x.X, x.Y}, {x.Y, x.X}} {
-				if c11DependsOn(pair[0], []ssa.Value{attempt}, map[ssa.Value]bool{}, 0) && c14IsMaxQuotient(pair[1]) {
+			for side, pair := range [][2]ssa.Value{{x.X, x.Y}, {x.Y, x.X}} {
+				if !c11DependsOn(pair[0], []ssa.Value{attempt}, map[ssa.Value]bool{}, 0) || !c14IsMaxQuotient(pair[1]) {
+					continue
+				}
+				// the multiplier is attempt+1: (attempt+1)·bound ≤ Max  ⇔  attempt+1 ≤ Max/bound  ⇔  attempt < Max/bound.
+				// k = what is added to the attempt number before the comparison
+				k := int64(0)
+				if add, ok := stripConv(pair[0]).(*ssa.BinOp); ok && add.Op == token.ADD {
+					if cst, isC := constInt(add.Y); isC {
+						k = cst
+					} else if cst, isC := constInt(add.X); isC {
+						k = cst
+					}
+				}
+				op := x.Op
+				if side == 1 { // quotient on the left: mirror
+					switch op {
+					case token.LSS:
+						op = token.GTR
+					case token.LEQ:
+						op = token.GEQ
+					case token.GTR:
+						op = token.LSS
+					case token.GEQ:
+						op = token.LEQ
+					}
+				}
+				// exact forms: n < q, n+1 <= q (fits); n >= q, n+1 > q (does not fit)
+				if (k == 0 && (op == token.LSS || op == token.GEQ)) || (k == 1 && (op == token.LEQ || op == token.GTR)) {
 					return true
 				}
+				c14BoundaryNote = "the comparison of the attempt number with MaxInt64/bound is off by one (the multiplier is attempt+1: the exact test is attempt < MaxInt64/bound)"
 			}
 		}
 	case *ssa.Call:
@@ -1155,6 +1195,9 @@ func c14RepresentabilityTest(v ssa.Value, attempt ssa.Value, depth int) bool {
 	}
 	return false
 }
+
+// c14BoundaryNote: set by c14RepresentabilityTest when it met a test of the right shape with the wrong boundary.
+var c14BoundaryNote string
 
 func c14IsMaxQuotient(v ssa.Value) bool {
 	v = stripConv(v)
